@@ -7,12 +7,20 @@
 //! further replies never frees data of replies already yielded"; the read seam's address
 //! bookkeeping only sees reallocations that a *transport read* reveals.
 //!
+//! It also *poisons*: fresh memory that was not asked to be zeroed is filled with 0xA5, memory that
+//! is freed (or cut off by a shrinking `realloc`) with 0xDD, before the system allocator sees it.
+//! Code that reads what it never wrote (a `set_len` without initialising, a stale tail taken for
+//! data) or reads through a dangling reference then meets bytes that are neither zero nor what was
+//! there before, so the mistake shows up in a result instead of going unnoticed because the memory
+//! happened to be zero or intact. Blocks above 4 MiB are left alone (cost).
+//!
 //! Everything here is per thread and allocation-free (the allocator calls into it).
 
 use std::alloc::{GlobalAlloc, Layout, System};
 use std::cell::Cell;
 
 const MAX: usize = 256;
+const POISON_MAX: usize = 4 << 20;
 
 thread_local! {
     static N: Cell<usize> = const { Cell::new(0) };
@@ -49,13 +57,20 @@ fn check(ptr: usize, size: usize, kind: u8, keep: usize) {
 
 unsafe impl GlobalAlloc for Watching {
     unsafe fn alloc(&self, layout: Layout) -> *mut u8 {
-        System.alloc(layout)
+        let p = System.alloc(layout);
+        if !p.is_null() && layout.size() <= POISON_MAX {
+            std::ptr::write_bytes(p, 0xA5, layout.size());
+        }
+        p
     }
     unsafe fn alloc_zeroed(&self, layout: Layout) -> *mut u8 {
         System.alloc_zeroed(layout)
     }
     unsafe fn dealloc(&self, ptr: *mut u8, layout: Layout) {
         check(ptr as usize, layout.size(), 1, 0);
+        if layout.size() <= POISON_MAX {
+            std::ptr::write_bytes(ptr, 0xDD, layout.size());
+        }
         System.dealloc(ptr, layout)
     }
     unsafe fn realloc(&self, ptr: *mut u8, layout: Layout, new_size: usize) -> *mut u8 {
@@ -68,7 +83,16 @@ unsafe impl GlobalAlloc for Watching {
         } else if new_size < layout.size() {
             check(ptr as usize, layout.size(), 3, new_size);
         }
-        System.realloc(ptr, layout, new_size)
+        if new_size < layout.size() && layout.size() <= POISON_MAX {
+            // the tail that is being given back
+            std::ptr::write_bytes(ptr.add(new_size), 0xDD, layout.size() - new_size);
+        }
+        let p = System.realloc(ptr, layout, new_size);
+        if !p.is_null() && new_size > layout.size() && new_size <= POISON_MAX {
+            // the new tail holds nothing the owner wrote
+            std::ptr::write_bytes(p.add(layout.size()), 0xA5, new_size - layout.size());
+        }
+        p
     }
 }
 
